@@ -18,7 +18,7 @@ BUDGET = {'quick': 25, 'thorough': 300}
 BLOCK = 40
 STREAM_ORDER = ['sched', 'preempt', 'faults', 'time', 'script', 'cfg']
 RULE = ('the real AsyncRunner and Interpreter run on real OS threads under a baton-passing scheduler: a runner thread and 1-3 client threads '
-        'with drawn scripts over queue(uid), queue(uid, delay), pause, unpause, sleep, ending with stop() (or with an event that makes the '
+        'with drawn scripts over queue(uid), queue(uid, delay), pause, unpause, sleep, ending with stop() - in some runs a second client calls stop() as well - (or with an event that makes the '
         'statechart final followed by wait()); runner knobs (interval in {0, 1/16, 1}, execute_all) drawn per run. The seeded scheduler decides '
         'every context switch at fake threading/time primitives and - in the fine configuration - at LINE events inside Interpreter._queue_event '
         '/ _select_event / execute_once / _KeyifyList.__getitem__ and the AsyncRunner methods; it injects thread stalls, wall-clock jumps seen '
@@ -167,6 +167,8 @@ def run(ch, tier):
                 ops.append((k, sc_.pick([1 / 16, 0.5, 3]), None))
             else:
                 ops.append((k, None, None))
+        if not main and ending == 'stop' and sc_.flag(1, 3):
+            ops.append(('stop', None, None))        # a second client stops the runner too, whenever it gets there
         return ops
 
     scripts = [draw_script(i == 0) for i in range(nclients)]
@@ -197,6 +199,11 @@ def run(ch, tier):
                     sched.log('unpause-inv')
                     r.unpause()
                     sched.log('unpause-ret')
+                elif k == 'stop':
+                    stop_invoked[0] = True
+                    sched.log('stop-inv')
+                    r.stop()
+                    sched.log('stop-ret')
                 else:
                     sched.sleep(a)
 
@@ -251,6 +258,7 @@ def run(ch, tier):
     res.stats['decisions'] += sched.steps
     res.stats['fine_runs' if fine else 'coarse_runs'] += 1
     res.stats['runs_with_pending_delayed_internal_event'] += int(watchdog)
+    res.stats['runs_in_which_two_clients_call_stop'] += int(any(o[0] == 'stop' for sc2 in scripts for o in sc2))
     res.sim_time = sched.now - 1000.0
     H = sched.events
     ctx = dict(knobs=dict(fine=fine, density=density, interval=interval, execute_all=execute_all, clients=nclients, ending=ending, watchdog=watchdog),
